@@ -3,7 +3,7 @@
    checked against model/Pipeline.v by vm_compute. Only projected observables. *)
 From Coq Require Import String List NArith Bool.
 From J5V.lib Require Import Outcome Corr.
-From J5V.model Require Import Pipeline PipelineEntity.
+From J5V.model Require Import Pipeline PipelineEntity PipelineList.
 From J5V.gen Require SwaggerGen.
 Import ListNotations.
 Local Open Scope N_scope.
@@ -31,11 +31,13 @@ Inductive c16case :=
          (cli_kind : nat) (cli : list cm_obs) (keys : list key)
          (sw_kind : nat)
 (* the same with the entity annotations of the package's objects instead of pre-computed walk roots:
-   the model groups them (walkSourceSchemas) and derives the roots itself *)
-| CChainE (anns : list ent_ann) (im : image)
+   the model groups them (walkSourceSchemas) and derives the roots itself; with the list constraints of the
+   source API's properties and the list request of every client method that has one *)
+| CChainE (anns : list ent_ann) (im : image) (rt : rules_table)
           (src_kind : nat) (src : list (str * list src_method))
           (cli_kind : nat) (cli : list cm_obs) (keys : list key)
           (ents : list (str * str * list str))      (* entities of the client API: name, state schema, event names *)
+          (lobs : list (str * str * (list str * (list str * list str))))  (* service, method, filterable / sortable / searchable *)
           (sw_kind : nat)
 (* the client stage and swagger on a hand-built source API (services given directly) *)
 | CClient (im : image) (api : src_api)
@@ -85,6 +87,20 @@ Definition cli_matches (ms : list client_method) (obs : list cm_obs) : bool :=
   Nat.eqb (length ms) (length obs)
   && forallb (fun m => existsb (cm_matches m) obs) ms.
 
+(* the list request of every list method: exactly the model's filterable, sortable and searchable fields, in order *)
+Definition lists_match (rt : rules_table) (g : env) (ms : list client_method)
+    (lobs : list (str * str * (list str * (list str * list str)))) : bool :=
+  let same := fun (m : client_method) (o : str * str * (list str * (list str * list str))) =>
+                str_eqb (cm_service m) (fst (fst o)) && str_eqb (cm_name m) (snd (fst o)) in
+  forallb (fun m =>
+    match method_list_fields rt g m with
+    | Ok None => negb (existsb (same m) lobs)
+    | Ok (Some lf) =>
+        existsb (fun o => same m o && strs_eqb (lf_filter lf) (fst (snd o))
+                          && strs_eqb (lf_sort lf) (fst (snd (snd o))) && strs_eqb (lf_search lf) (snd (snd (snd o)))) lobs
+    | _ => false
+    end) ms.
+
 Definition keys_match (a b : list key) : bool :=
   forallb (fun k => mem_key k b) a && forallb (fun k => mem_key k a) b.
 
@@ -106,8 +122,8 @@ Definition c16_check (c : c16case) : bool :=
           (Nat.eqb (kind (cr_client r)) ck
            && match cr_client r with Ok (ms, ks) => cli_matches ms cli && keys_match ks keys | _ => true end))
       && (negb (Nat.eqb sk 0 && Nat.eqb ck 0) || Nat.eqb (kind (cr_swagger r)) wk)
-  | CChainE anns im sk src ck cli keys eobs wk =>
-      let r := run_chain_ent current_config im anns in
+  | CChainE anns im rt sk src ck cli keys eobs lobs wk =>
+      let r := run_chain_list current_config im anns rt in
       (* the entities the client API lists: the model's grouping, state schema and event names *)
       (negb (Nat.eqb sk 0 && Nat.eqb ck 0) ||
        match walk_source_schemas anns with
@@ -125,7 +141,10 @@ Definition c16_check (c : c16case) : bool :=
       && (Nat.eqb sk 0 || Nat.eqb ck 9) && (Nat.eqb sk 0 && Nat.eqb ck 0 || Nat.eqb wk 9)
       && (negb (Nat.eqb sk 0) ||
           (Nat.eqb (kind (cr_client r)) ck
-           && match cr_client r with Ok (ms, ks) => cli_matches ms cli && keys_match ks keys | _ => true end))
+           && match cr_client r with
+              | Ok (ms, ks) => cli_matches ms cli && keys_match ks keys && lists_match rt (im_schemas im) ms lobs
+              | _ => true
+              end))
       && (negb (Nat.eqb sk 0 && Nat.eqb ck 0) || Nat.eqb (kind (cr_swagger r)) wk)
   | CClient im api ck cli keys wk =>
       let r := run_client current_config im (Ok api) in
